@@ -53,4 +53,30 @@ func init() {
 			}
 		}
 	}
+	// findroute-seq: n (proto dest nexthop)*n m host*m
+	// observation: m, then one answer per host, all looked up one after the other on ONE table object
+	components["findroute-seq"] = func(k *toks, o *out) {
+		n := k.int()
+		pcr := NewPreConfigRoute()
+		for i := 0; i < n && !k.bad; i++ {
+			p, d, h := k.str(), k.str(), k.str()
+			pcr.AddRouteItem(p, d, h)
+		}
+		m := k.int()
+		if k.bad {
+			return
+		}
+		o.i(m)
+		for i := 0; i < m && !k.bad; i++ {
+			proto, h, port, err := pcr.FindRoute(k.str())
+			if err != nil {
+				o.s("none")
+			} else {
+				o.s("some")
+				o.s(proto)
+				o.s(h)
+				o.s(fmt.Sprint(port))
+			}
+		}
+	}
 }
